@@ -407,6 +407,15 @@ func c18Results(re *regexp2.Regexp, s string) string {
 		sb.WriteString("]")
 		m, err = re.FindNextMatch(m)
 	}
+	if !strings.Contains(sb.String(), "error:") {
+		// replacement references resolve through the same tables in every spelling
+		r, err := re.Replace(s, "[$0|$1|${g1}|$$]", -1, -1)
+		if err != nil {
+			sb.WriteString(" replace error:" + err.Error())
+		} else {
+			fmt.Fprintf(&sb, " replace=%q", r)
+		}
+	}
 	return sb.String()
 }
 
@@ -491,7 +500,7 @@ func c18Parse(pat string, ro regexp2.RegexOptions) c18Parsed {
 	if err != nil {
 		p.cerr = err.Error()
 	} else {
-		re.MatchTimeout = 300 * time.Millisecond // nested quantifiers can blow up; such subjects are skipped
+		re.MatchTimeout = 100 * time.Millisecond // nested quantifiers can blow up; such subjects are skipped
 	}
 	p.re = re
 	return p
@@ -536,6 +545,7 @@ func c18Check(c *core.Ctx, cases []c18Case) []core.Outcome {
 			}
 		}
 		okCount, timeouts := 0, 0
+		skip := map[string]bool{}
 		for os_ := 0; os_ < 32 && o.Fail == nil; os_++ {
 			ro := c18RO(os_)
 			set := c18SetText(os_)
@@ -583,10 +593,19 @@ func c18Check(c *core.Ctx, cases []c18Case) []core.Outcome {
 				}
 				// (a) behaviour on the inputs (for the explicit spelling: against the unwrapped original as well)
 				for _, in := range cs.Inputs {
+					if skip[in] {
+						continue
+					}
 					want := c18Results(base.re, in)
-					got := c18Results(a.p.re, in)
-					if strings.Contains(want, "error:") || strings.Contains(got, "error:") {
+					if strings.Contains(want, "error:") {
 						timeouts++
+						skip[in] = true // catastrophic backtracking on this subject: dropped for the rest of the case
+						continue
+					}
+					got := c18Results(a.p.re, in)
+					if strings.Contains(got, "error:") {
+						timeouts++
+						skip[in] = true
 						continue
 					}
 					if got != want {
@@ -645,7 +664,7 @@ func init() {
 		core.RunLeg(c, core.Leg[c18Case]{
 			Name: "O", Kind: "correspondence+oracle", Batch: 64,
 			Rule:   "random pattern ASTs (depth <= 3, 1-4 items per level: letters of both cases, classes, '.', '^', '$', \\n, \\w, \\b, blanks, '#' comments ending in a newline, alternation, quantifiers, unnamed/non-capturing/named groups, inline (?on-off) items with 1-3 signed flags, scoped (?on-off:...) groups) x all 32 subsets O of {i,m,n,s,x} x 6 subjects (leaf texts in order, case-flipped, with newlines, random). non-trivial = the pattern contains an inline option; distinct by pattern. Each (pattern,O): compile option O vs prefix (?O) vs wrap (?O:...) vs the explicit spelling printed from Lean Options.resolve (every leaf in (?on-off:...), unnamed groups under n as (?:...)): same compile outcome, same matches and captures on the subjects, equal parse trees modulo parser-only option bits, equal capture tables, equal find optimizations, equal compiled programs",
-			Corpus: corpus, N: c.N(1000, 12000), Gen: c18Gen, Check: c18Check,
+			Corpus: corpus, N: c.N(800, 12000), Gen: c18Gen, Check: c18Check,
 		})
 	})
 }
